@@ -50,6 +50,12 @@ def strategy(tier):
     return cases()
 
 
+def cclose(a, b, rtol):
+    """complex entries agree to rtol of their MODULUS (the rounding of a phase near a multiple of pi moves the small component by a
+    relative amount that is large for that component alone - e.g. Im psi = 1.8e-3 |psi| changes by 1e-12 of itself when the phase moves one ulp)"""
+    return bool(torch.all((a - b).abs() <= rtol * b.abs() + 1e-300))
+
+
 def close(a, b, rtol, atol=0.0):
     return bool(torch.all((a - b).abs() <= rtol * b.abs() + atol))
 
@@ -109,6 +115,43 @@ def check(case):
     gen.set_net(state.rbm_am, case["am"])
     if case.get("ph"):
         gen.set_net(state.rbm_ph, case["ph"])
+    if case["n"] <= 6:
+        # after an exception: a training run that evaluates the normalisation in its callbacks is aborted by a user callback (caught); the
+        # caller then writes parameters and evaluates: everything must be that of the CURRENT parameters
+        import numpy as _np
+        sp_ = state.generate_hilbert_space()
+        dat_ = sp_[: min(3, sp_.shape[0])].clone()
+        bas_ = None if case["type"] == "positive" else _np.array([["Z"] * case["n"]] * dat_.shape[0])
+        gen.abort_a_fit(state, dat_, bas_, hook="on_epoch_end" if case["row"] % 2 else "on_batch_end", touch_normalization=True, space=sp_)
+        z_after = state.normalization(sp_)         # evaluated once after the abort (same space object), THEN the parameters change
+        mir2 = gen.mirrored(case)
+        gen.set_net(state.rbm_am, mir2["am"])
+        if case.get("ph"):
+            gen.set_net(state.rbm_ph, mir2["ph"])
+        try:
+            check_round(mir2, state, space=sp_ if case["row"] % 3 else None)
+        except PropertyViolation as v:
+            raise PropertyViolation("after-aborted-fit:" + v.bucket, "after a fit() that a user callback aborted with an exception (caught) and a parameter change: " + v.message, v.detail)
+        gen.set_net(state.rbm_am, case["am"])
+        if case.get("ph"):
+            gen.set_net(state.rbm_ph, case["ph"])
+    if case["n"] <= 4 and case["row"] % 5 == 0:
+        # long time axis: more than 32 (40) different parameter states evaluated on ONE state object and one space object, the normalisation
+        # asked for twice at each (as several metrics of one evaluator do)
+        sp_ = state.generate_hilbert_space()
+        V_ = R.bits(case["n"])
+        for i_ in range(40):
+            f_ = 1.0 - 0.02 * (i_ + 1)
+            cur_ = dict(case, am={k_: (torch.tensor(v_, dtype=torch.double) * f_).tolist() for k_, v_ in case["am"].items()})
+            gen.set_net(state.rbm_am, cur_["am"])
+            want_ = torch.exp(R.log_marg(R.net_from_case(cur_["am"]), V_)).sum()
+            z1_ = state.normalization(sp_).double()
+            pr_ = state.probability(sp_, state.normalization(sp_)).double().sum()
+            z2_ = state.normalization(sp_).double()
+            require(close(z1_, want_, REF_RTOL) and close(z2_, want_, REF_RTOL) and abs(float(pr_) - 1.0) <= 1e-9, "long-history:normalization",
+                    f"parameter state {i_ + 1} of 40 evaluated on one object: normalization() is not the sum of the probabilities of the CURRENT parameters",
+                    first=float(z1_), second=float(z2_), want=float(want_), total_probability=float(pr_))
+        gen.set_net(state.rbm_am, case["am"])
     shared_module(case)
     if case.get("am3"):
         from qucumber.rbm import BinaryRBM
@@ -204,11 +247,11 @@ def interleave_readonly(case, state):
 _OWNED = set()
 
 
-def check_round(case, state):
+def check_round(case, state, space=None):
     n = case["n"]
     am, ph = gen.ref_nets(case)
     V = R.bits(n)
-    space = state.generate_hilbert_space()
+    space = state.generate_hilbert_space() if space is None else space       # histories pass the SAME space object they used before
     require(space.shape == (2 ** n, n), "space-shape", f"generate_hilbert_space shape {tuple(space.shape)}")
     require(torch.equal(space.double(), V), "space-order", "generate_hilbert_space is not the big-endian enumeration")
 
@@ -289,7 +332,7 @@ def check_round(case, state):
     idx = case["idx"]
     sub = space[idx]
     psi_s = R.lib_to_c(state.psi(sub))
-    require(psi_s.shape == (len(idx),) and close(psi_s.real, psi.real[idx], 1e-12, 1e-300) and close(psi_s.imag, psi.imag[idx], 1e-12, 1e-300),
+    require(psi_s.shape == (len(idx),) and cclose(psi_s, psi[idx], 1e-12),
             "callform:sub-batch", "psi of a sub-batch differs from the corresponding entries of psi(space)")
     require(close(state.probability(sub).double(), prob[idx], 1e-12), "callform:sub-batch-prob", "probability of a sub-batch differs")
     # rank-3 batches (the form the library's own rotation code uses): psi of a (a, b, n) tensor is (2, a, b)
@@ -299,14 +342,14 @@ def check_round(case, state):
         p3 = state.psi(v3)
         require(tuple(p3.shape) == (2, 2, m // 2), "callform:rank3-shape", f"psi of a (2,{m // 2},{n}) batch has shape {tuple(p3.shape)}")
         p3c = R.lib_to_c(p3).reshape(-1)
-        require(close(p3c.real, psi.real[idx[:m]], 1e-12, 1e-300) and close(p3c.imag, psi.imag[idx[:m]], 1e-12, 1e-300), "callform:rank3",
+        require(cclose(p3c, psi[idx[:m]], 1e-12), "callform:rank3",
                 "psi of a rank-3 batch differs from the corresponding entries of psi(space)")
         require(close(state.probability(v3).double().reshape(-1), prob[idx[:m]], 1e-12), "callform:rank3-prob", "probability of a rank-3 batch differs")
     # sample tensors of other dtypes (what torch.bernoulli / a data loader / an index computation hands over): same values
     for dt in (torch.float32, torch.int64, torch.uint8):
         alt = sub.to(dt)
         pa = R.lib_to_c(state.psi(alt))
-        require(pa.shape == (len(idx),) and close(pa.real, psi.real[idx], 1e-12, 1e-300) and close(pa.imag, psi.imag[idx], 1e-12, 1e-300),
+        require(pa.shape == (len(idx),) and cclose(pa, psi[idx], 1e-12),
                 "callform:dtype", f"psi of a {dt} sample tensor differs from psi of the same states in float64")
         require(close(state.probability(alt).double(), prob[idx], 1e-12), "callform:dtype-prob", f"probability of a {dt} sample tensor differs")
         for Zform in (Z, float(Z)):
@@ -329,7 +372,7 @@ def check_round(case, state):
     state.psi(buf); state.probability(buf)
     buf.copy_(space[list(reversed(idx))])
     pr_ = R.lib_to_c(state.psi(buf))
-    require(close(pr_.real, psi.real[list(reversed(idx))], 1e-12, 1e-300) and close(pr_.imag, psi.imag[list(reversed(idx))], 1e-12, 1e-300) and
+    require(cclose(pr_, psi[list(reversed(idx))], 1e-12) and
             close(state.probability(buf).double(), prob[list(reversed(idx))], 1e-12), "callform:buffer-refilled-in-place",
             "psi / probability of a sample tensor that was refilled in place do not follow the tensor's current contents")
     # results belong to the caller: every returned tensor is edited in place (as a caller normalising or shifting a result would) and each
